@@ -424,6 +424,14 @@ class NameConverter(ast.NodeTransformer):
             return self.generic_visit(node)
 
         cn = node.func.id == self.call_next_sym
+        if not cn and any(
+            isinstance(pos, int)
+            for kw in node.keywords
+            for pos in self.analysis.name_to_positions.get(kw.arg, ())
+        ):
+            # A positional argument given by keyword is bound by the entry point
+            return self.generic_visit(node)
+
         tmp = f"__TMP{next(self.count)}_"
 
         def _make_lookup_call(key, arg):
